@@ -243,7 +243,26 @@ def _marshmallow_schema(interp, args, kwargs):
     return Opaque("schema", methods={"load": lambda interp2, d: Opaque("model", attrs={"$data": d})})
 
 
-EXTERNALS = {"marshmallow.Schema": _marshmallow_schema, "Bio.Seq.Seq": bio_seq, "re.compile": _re_compile, "re.match": _re_apply("match"),
+def _max_symbolic(interp, seq, kw):
+    """max(xs) over a sequence of symbolic length (trusted builtin contract): an upper bound of every element that is
+    attained by some element; ValueError on an empty sequence."""
+    import z3
+    from pyvc.values import PyExc
+    n = seq.length
+    if interp.branch(n == 0):
+        if "default" in kw:
+            return kw["default"]
+        raise PyExc("ValueError", "max() arg is an empty sequence")
+    _uid[0] += 1
+    m, w, j = z3.Int(f"max!{_uid[0]}"), z3.Int(f"maxw!{_uid[0]}"), z3.Int(f"maxj!{_uid[0]}")
+    interp.assume(z3.ForAll([j], z3.Implies(z3.And(0 <= j, j < n), seq.get(j) <= m), patterns=[seq.get(j)]))
+    interp.assume(z3.And(0 <= w, w < n, seq.get(w) == m))
+    interp.ghost["max/witness"] = w
+    interp.trusted_used.add("max over a symbolic-length sequence (upper bound that is attained)")
+    return m
+
+
+EXTERNALS = {"builtins.max.symbolic": _max_symbolic, "marshmallow.Schema": _marshmallow_schema, "Bio.Seq.Seq": bio_seq, "re.compile": _re_compile, "re.match": _re_apply("match"),
              "re.search": _re_apply("search"), "re.sub": _re_sub, "re.fullmatch": _re_apply("fullmatch"),
              "collections.defaultdict": _defaultdict}
 EXTERNAL_CONSTS = {"string.punctuation": _string.punctuation, "re.IGNORECASE": int(_re.IGNORECASE),
